@@ -79,7 +79,7 @@ CONC_NOTE = ("Trusted: Coq 8.16.1 kernel (+vm_compute), no axioms; Model/Conc.v 
              "file-backed SQLite database, parked between top-level transactions touching core tables) and inside Coq, comparing statuses and "
              "core table dumps for every executed schedule. Assumes, as the property does, that each transaction is atomic and isolated.")
 CHECKS.update({
-    'C05': ("proof", "Coq theorems over ALL schedules of ANY number of concurrent requests: a request carrying provider generation g "
+    'C05': ("proof", "For EVERY request kind as a thread (Model/ConcAll.v), any number of requests, any schedule: a request holding generation g for provider u that is answered with success committed when u's stored generation was g, and among the requests holding the same g for the same u at most one changes anything (C05_commit_generation_all_kinds, C05_at_most_one_all_kinds). Coq theorems over ALL schedules of ANY number of concurrent requests: a request carrying provider generation g "
             "succeeds only if g is the provider's generation in its committing transaction; at most one of the requests carrying the same "
             "generation succeeds with an effect; a rejected provider write changes nothing; self-derived generations are validated at commit. "
             "Tie: schedule correspondence; oracle: at-most-one / error code / serial equivalence on the real service for every executed "
